@@ -526,6 +526,75 @@ def _seq_worker(codes_list):
     return out
 
 
+# ---- lock level: the database refuses the write ------------------------------------------------------
+def lock_level(name, states, labels):
+    """Another connection holds SQLite's write lock while ONE operation of the workload is served (busy
+    timeout 0): whatever the server does about the refused write, an operation it acknowledges as
+    successful has its effect in the file, and one it reports as failed has none."""
+    import sqlite3
+    import sqlalchemy
+    part = Part()
+    tmp = tempfile.mkdtemp(prefix='verif-c09l-', dir=W.SCRATCH_BASE)
+    snaps = {}
+    w = W.World()
+    try:
+        def before(i, label):
+            w.engine._data_store.dispose()
+            f = os.path.join(tmp, 's%03d.db' % i)
+            crash.copy_files(w.db, f)
+            snaps[i] = (f, {k: v for k, v in LAST_CTX.items() if k != '_ok'} if i else {})
+        run_workload(w, before, None, name=name)
+    finally:
+        w.close()
+    wl = workload(name)
+    try:
+        for i, entry in enumerate(wl):
+            label, version, build = entry[:3]
+            hdr = entry[3] if len(entry) > 3 else {}
+            f, ctx = snaps[i]
+            w = W.World(db_from=f)
+            try:
+                sqlalchemy.event.listen(w.engine._data_store, 'connect',
+                                        lambda c, r: c.execute('PRAGMA busy_timeout=0'))
+                w.engine._data_store.dispose()
+                W.ENTROPY.constant = True
+                W.CLOCK.now = W.T0 + i
+                holder = sqlite3.connect(w.db, isolation_level=None, timeout=0)
+                holder.execute('BEGIN IMMEDIATE')
+                try:
+                    r = w.do(version, build(dict(ctx)), **hdr)
+                finally:
+                    holder.execute('ROLLBACK')
+                    holder.close()
+                part.count('crash_points')
+                part.count('lock_points')
+                acked = bool(r.items) and all(it.ok() for it in r.items)
+                v = view(w.dump())
+                changes = states[i] != states[i + 1]
+                part.counters.setdefault('_kinds', set()).add(('write-refused', 'acked' if acked else 'failed'))
+                if acked and changes and v != states[i + 1]:
+                    part.violation("acknowledged-not-written|%s|lock" % label,
+                                   "workload '%s': '%s' was served while another connection held the "
+                                   "database's write lock; the answer is %s (success), yet the file is %s" % (
+                                       name, label, r.brief(),
+                                       'unchanged' if v == states[i] else 'neither S_%d nor S_%d: %s' % (
+                                           i, i + 1, _vdiff(states[i], v))),
+                                   {'level': 'lock', 'workload': name, 'op': label, 'index': i})
+                elif v not in [states[i], states[i + 1]] + list(getattr(states, 'extra', {}).get(i, [])):
+                    part.violation("state-mismatch|op=%s|lock" % label,
+                                   "workload '%s': '%s' under a held write lock (answer %s) leaves the file in "
+                                   "neither S_%d nor S_%d: %s" % (name, label, r.brief(), i, i + 1,
+                                                                   _vdiff(states[i], v)),
+                                   {'level': 'lock', 'workload': name, 'op': label, 'index': i})
+            finally:
+                w.close()
+    finally:
+        shutil.rmtree(tmp, ignore_errors=True)
+    out = part.as_dict()
+    out['kinds'] = sorted(part.counters.pop('_kinds', set()))
+    return out
+
+
 # ---- syscall level ---------------------------------------------------------------------------
 WORKLOAD_MAIN = r'''
 import sys, warnings
@@ -609,6 +678,11 @@ def _one_workload(rep, tier, name, kinds, tot):
     finally:
         shutil.rmtree(tmp, ignore_errors=True)
     tot['stmt_points'] += len(pts)
+    lpart = lock_level(name, states, labels)
+    kinds.update(tuple(k) for k in lpart.pop('kinds', []))
+    tot['stmt_points'] += lpart.get('counters', {}).get('lock_points', 0)
+    _tag(lpart, name)
+    rep.merge(lpart)
     if tier == 'thorough' or name == 'core':
         if not crash.strace_available():
             rep.harness_error("strace is not available: syscall-level crash points cannot run")
@@ -686,7 +760,8 @@ def run(tier, seed):
              "all three. Generated family: Create followed by every sequence of <= 2 (quick) / 3 (thorough) "
              "operations from {Activate, Revoke, Revoke(compromise), Destroy, ModifyAttribute, "
              "DeleteAttribute, SetAttribute, DeleteAttribute(2.0), Create} on that one object, statement-"
-             "level crash points of the last operation, plus 'acknowledged => file changed'",
+             "level crash points of the last operation, plus 'acknowledged => file changed'. Lock level: every "
+             "operation of the three workloads served while another connection holds SQLite's write lock",
         generated_sequences=rep.counters.get('sequences', 0),
         points_total=stmt_points + sys_points, points_covered=total,
         statement_level_points=stmt_points, syscall_level_points=sys_points,
@@ -719,6 +794,10 @@ def replay(doc):
                 p['k'], p['event'], p['stmt'], p['op'], bad or 'consistent')
         finally:
             shutil.rmtree(tmp, ignore_errors=True)
+    if doc.get('level') == 'lock':
+        out = lock_level(doc.get('workload', 'main'), states, labels)
+        v = [x for x in out['violations'] if x[2].get('op') == doc['op']]
+        return bool(v), '\n'.join("%s: %s" % (k, w_) for k, w_, _ in v) or 'consistent'
     part_ = _syscall_worker((doc['syscall'], [doc['n']], states, labels, _child_env()))
     v = part_['violations']
     return bool(v), '\n'.join("%s: %s" % (k, w_) for k, w_, _ in v) or 'consistent'
